@@ -2,6 +2,7 @@ import FitProofs.Framing
 import FitProofs.CrcTrack
 import FitProofs.ListLemmas
 import FitProps.C14
+import FitProofs.HdrKind
 /-
   Whole-file framing: header, records and file CRC as a FIT writer lays them out
   (`frameBytes`), decoded by the byte-level decoder, against the item machine (`runItems`).
@@ -9,25 +10,14 @@ import FitProps.C14
 namespace Fit
 open Fit.Crc
 
-/-- the 12 header bytes before the header CRC -/
-def hdr12 (proto profile len : Nat) : Bytes := [14, u8 proto] ++ natLE 2 profile ++ natLE 4 len ++ fitTag
-
-theorem frameBytes_eq (proto profile : Nat) (records : Bytes) :
-    frameBytes proto profile records =
-      hdr12 proto profile records.length ++ [lo (checksum (hdr12 proto profile records.length)),
-        hi (checksum (hdr12 proto profile records.length))] ++ records ++
-      [lo (checksum (hdr12 proto profile records.length ++ [lo (checksum (hdr12 proto profile records.length)),
-        hi (checksum (hdr12 proto profile records.length))] ++ records)),
-       hi (checksum (hdr12 proto profile records.length ++ [lo (checksum (hdr12 proto profile records.length)),
-        hi (checksum (hdr12 proto profile records.length))] ++ records))] := by
-  simp [frameBytes, hdr12]
-
 /-- the decoder state after the header of a frame -/
-def afterHeader (g : Globals) (proto profile len : Nat) : DecSt :=
+def afterHeader (k : HdrKind) (g : Globals) (proto profile len : Nat) : DecSt :=
   { DecSt.init g with
-    hdr := { size := 14, proto := proto, profile := profile % 65536, dataSize := len % 4294967296, dtype := fitTag,
-             crc := (checksum (hdr12 proto profile len)).toNat },
-    crc := 0#16 }
+    hdr := { size := k.size, proto := proto, profile := profile % 65536, dataSize := len % 4294967296, dtype := fitTag,
+             crc := match k with
+               | .withCrc => (checksum (hdr12 .withCrc proto profile len)).toNat
+               | _ => 0 },
+    crc := checksum (frameHdr k proto profile len) }
 
 theorem lo_hi_leNat (c : BitVec 16) : leNat [lo c, hi c] = c.toNat := by
   have h1 : (lo c).toNat = c.toNat % 256 := by simp [lo, UInt8.toNat, BitVec.toNat_setWidth]
@@ -37,44 +27,79 @@ theorem lo_hi_leNat (c : BitVec 16) : leNat [lo c, hi c] = c.toNat := by
   have := c.isLt
   omega
 
+/-- the header bytes after the size byte -/
+def hdrTail (k : HdrKind) (proto profile len : Nat) : Bytes :=
+  [u8 proto] ++ natLE 2 profile ++ natLE 4 len ++ fitTag ++ hdrExtra k proto profile len
+
+theorem hdrTail_length (k : HdrKind) (proto profile len : Nat) : (hdrTail k proto profile len).length = k.size - 1 := by
+  cases k <;> simp [hdrTail, hdrExtra, natLE_length, fitTag, HdrKind.size]
+
+theorem frameHdr_split (k : HdrKind) (proto profile len : Nat) :
+    frameHdr k proto profile len = u8 k.size :: hdrTail k proto profile len := by
+  simp [frameHdr, hdr12, hdrTail]
+
 /-- `headerCheck` accepts the header a writer lays out -/
-theorem headerCheck_frame (g : Globals) (proto profile len : Nat) (hp : proto < 256) (hp2 : proto / 16 ≤ protoMajorMax) :
-    headerCheck { DecSt.init g with hdr := { (DecSt.init g).hdr with size := 14 } } [14]
-      ([u8 proto] ++ natLE 2 profile ++ natLE 4 len ++ fitTag ++
-        [lo (checksum (hdr12 proto profile len)), hi (checksum (hdr12 proto profile len))]) =
-      .ok (afterHeader g proto profile len) := by
-  have hres : update (update (0#16) [14]) ([u8 proto] ++ natLE 2 profile ++ natLE 4 len ++ fitTag ++
-      [lo (checksum (hdr12 proto profile len)), hi (checksum (hdr12 proto profile len))]) = 0#16 := by
-    rw [← update_append]
-    have : [14] ++ ([u8 proto] ++ natLE 2 profile ++ natLE 4 len ++ fitTag ++
-        [lo (checksum (hdr12 proto profile len)), hi (checksum (hdr12 proto profile len))]) =
-        hdr12 proto profile len ++ [lo (checksum (hdr12 proto profile len)), hi (checksum (hdr12 proto profile len))] := by
-      simp [hdr12]
-    rw [this]
-    exact Props.C14.residue _
+theorem headerCheck_frame (k : HdrKind) (g : Globals) (proto profile len : Nat) (hp : proto < 256)
+    (hp2 : proto / 16 ≤ protoMajorMax) :
+    headerCheck { DecSt.init g with hdr := { (DecSt.init g).hdr with size := k.size } } [u8 k.size]
+      (hdrTail k proto profile len) = .ok (afterHeader k g proto profile len) := by
+  have hcrc : update (update (0#16) [u8 k.size]) (hdrTail k proto profile len) = checksum (frameHdr k proto profile len) := by
+    rw [← update_append, frameHdr_split]
+    rfl
   obtain ⟨a1, a2, hA⟩ : ∃ a1 a2, natLE 2 profile = [a1, a2] := ⟨_, _, rfl⟩
   obtain ⟨b1, b2, b3, b4, hB⟩ : ∃ b1 b2 b3 b4, natLE 4 len = [b1, b2, b3, b4] := ⟨_, _, _, _, rfl⟩
   have hpA : leNat [a1, a2] = profile % 65536 := by rw [← hA, leNat_natLE]
   have hpB : leNat [b1, b2, b3, b4] = len % 4294967296 := by rw [← hB, leNat_natLE]
-  generalize hcv : checksum (hdr12 proto profile len) = hc at hres ⊢
-  have hcn : leNat [lo hc, hi hc] = hc.toNat := lo_hi_leNat hc
-  unfold afterHeader
-  rw [hcv]
-  rw [hA, hB] at hres ⊢
-  unfold headerCheck
-  simp only [fitTag, List.cons_append, List.nil_append, List.drop_succ_cons, List.drop_zero, List.take_succ_cons,
-    List.take_zero, List.headD_cons] at hres ⊢
   have hpt : (u8 proto).toNat = proto := by simp [u8, Nat.mod_eq_of_lt hp]
-  rw [hpt]
   have hnot : ¬ proto / 16 > protoMajorMax := by omega
-  rw [if_neg hnot]
-  simp only [ne_eq, not_true_eq_false, ↓reduceIte, hpA, hpB, hcn]
-  have h14 : ¬ ((14 : UInt8).toNat = headerSizeNoCRC) := by decide
-  rw [if_neg h14]
   have hcrc0 : (DecSt.init g).crc = 0#16 := rfl
-  rw [hcrc0, hres]
-  simp only [not_true_eq_false, ↓reduceIte]
-  split <;> rfl
+  cases k with
+  | noCrc =>
+    unfold afterHeader
+    rw [← hcrc]
+    unfold hdrTail hdrExtra headerCheck
+    rw [hA, hB]
+    simp only [fitTag, List.cons_append, List.nil_append, List.append_nil, List.drop_succ_cons, List.drop_zero,
+      List.take_succ_cons, List.take_zero, List.headD_cons, HdrKind.size]
+    rw [hpt, if_neg hnot]
+    simp only [ne_eq, not_true_eq_false, ↓reduceIte, hpA, hpB]
+    have h12 : (u8 12).toNat = headerSizeNoCRC := by decide
+    rw [if_pos h12, hcrc0]
+    rfl
+  | zeroCrc =>
+    unfold afterHeader
+    rw [← hcrc]
+    unfold hdrTail hdrExtra headerCheck
+    rw [hA, hB]
+    simp only [fitTag, List.cons_append, List.nil_append, List.drop_succ_cons, List.drop_zero,
+      List.take_succ_cons, List.take_zero, List.headD_cons, HdrKind.size]
+    rw [hpt, if_neg hnot]
+    simp only [ne_eq, not_true_eq_false, ↓reduceIte, hpA, hpB]
+    have h14 : ¬ ((u8 14).toNat = headerSizeNoCRC) := by decide
+    rw [if_neg h14, hcrc0]
+    have hz : leNat [0, 0] = 0 := by decide
+    rw [hz]
+    simp only [↓reduceIte]
+  | withCrc =>
+    have hres : checksum (frameHdr .withCrc proto profile len) = 0#16 := by
+      unfold frameHdr hdrExtra
+      exact Props.C14.residue _
+    rw [← hcrc] at hres
+    unfold afterHeader
+    rw [← hcrc]
+    generalize hcv : checksum (hdr12 .withCrc proto profile len) = hc at hres ⊢
+    have hcn : leNat [lo hc, hi hc] = hc.toNat := lo_hi_leNat hc
+    unfold hdrTail hdrExtra headerCheck at *
+    rw [hcv] at hres ⊢
+    rw [hA, hB] at hres ⊢
+    simp only [fitTag, List.cons_append, List.nil_append, List.drop_succ_cons, List.drop_zero,
+      List.take_succ_cons, List.take_zero, List.headD_cons, HdrKind.size] at hres ⊢
+    rw [hpt, if_neg hnot]
+    simp only [ne_eq, not_true_eq_false, ↓reduceIte, hpA, hpB, hcn]
+    have h14 : ¬ ((u8 14).toNat = headerSizeNoCRC) := by decide
+    rw [if_neg h14, hcrc0, hres]
+    simp only [not_true_eq_false, ↓reduceIte]
+    split <;> rfl
 
 end Fit
 
@@ -475,98 +500,98 @@ end Fit
 namespace Fit
 open Fit.Crc
 
-/-- the 14 header bytes of a frame -/
-def frameHdr (proto profile len : Nat) : Bytes :=
-  hdr12 proto profile len ++ [lo (checksum (hdr12 proto profile len)), hi (checksum (hdr12 proto profile len))]
-
 /-- the decoder state when the record phase starts -/
-def recState0 (P : Profile) (g : Globals) (proto profile len : Nat) : DecSt :=
-  { afterHeader g proto profile len with
-    file := some { hdr := (afterHeader g proto profile len).hdr, fileId := zeroFileId P }, unkInit := true }
+def recState0 (P : Profile) (k : HdrKind) (g : Globals) (proto profile len : Nat) : DecSt :=
+  { afterHeader k g proto profile len with
+    file := some { hdr := (afterHeader k g proto profile len).hdr, fileId := zeroFileId P }, unkInit := true }
 
 theorem update_lo_hi (c : BitVec 16) : update c [lo c, hi c] = 0#16 := by
   have := Props.C14.residue_from c []
   simpa [update] using this
 
-/-- the 13 header bytes after the size byte -/
-def hdrTail (proto profile len : Nat) : Bytes :=
-  [u8 proto] ++ natLE 2 profile ++ natLE 4 len ++ fitTag ++
-    [lo (checksum (hdr12 proto profile len)), hi (checksum (hdr12 proto profile len))]
+theorem frameBytes_split (k : HdrKind) (proto profile : Nat) (recs : Bytes) :
+    frameBytesK k proto profile recs =
+      u8 k.size :: (hdrTail k proto profile recs.length ++ (recs ++
+        [lo (checksum (frameHdr k proto profile recs.length ++ recs)), hi (checksum (frameHdr k proto profile recs.length ++ recs))])) := by
+  unfold frameBytesK
+  generalize checksum (frameHdr k proto profile recs.length ++ recs) = fc
+  rw [frameHdr_split]
+  simp
 
-theorem hdrTail_length (proto profile len : Nat) : (hdrTail proto profile len).length = 13 := by
-  simp [hdrTail, natLE_length, fitTag]
-
-theorem frameBytes_split (proto profile : Nat) (recs : Bytes) :
-    frameBytes proto profile recs =
-      14 :: (hdrTail proto profile recs.length ++ (recs ++
-        [lo (checksum (frameHdr proto profile recs.length ++ recs)), hi (checksum (frameHdr proto profile recs.length ++ recs))])) := by
-  rw [frameBytes_eq]
-  simp [hdr12, hdrTail, frameHdr]
-
-/-- the header phase on a frame -/
-theorem frame_header_step (P : Profile) (m : Mode) (g : Globals) (proto profile : Nat) (recs tail : Bytes) (stop : Stop)
+/-- the header phase on a header declaring `L` record bytes, whatever follows -/
+theorem frame_header_step' (P : Profile) (m : Mode) (k : HdrKind) (g : Globals) (proto profile L : Nat) (R : Bytes) (stop : Stop)
     (hp : proto < 256) (hp2 : proto / 16 ≤ protoMajorMax) (cont : DecSt → HP) :
     runSpec (decodeHeader (DecSt.init g) cont)
-        { rest := frameBytes proto profile recs ++ tail, stop := stop, taken := 0 } =
-      runSpec (cont (afterHeader g proto profile recs.length))
-        { rest := recs ++ [lo (checksum (frameHdr proto profile recs.length ++ recs)),
-            hi (checksum (frameHdr proto profile recs.length ++ recs))] ++ tail, stop := stop, taken := 14 } := by
-  have hrest : frameBytes proto profile recs ++ tail = 14 :: (hdrTail proto profile recs.length ++ (recs ++
-      [lo (checksum (frameHdr proto profile recs.length ++ recs)), hi (checksum (frameHdr proto profile recs.length ++ recs))] ++ tail)) := by
-    rw [frameBytes_split]; simp
-  have h13 := hdrTail_length proto profile recs.length
-  rw [decodeHeader_run_ok (DecSt.init g) (afterHeader g proto profile recs.length) cont _ 14 (Or.inr rfl)
-    (by rw [hrest]; simp only [List.length_cons, List.length_append, h13]; omega)
-    (by rw [hrest]; rfl)
+        { rest := u8 k.size :: (hdrTail k proto profile L ++ R), stop := stop, taken := 0 } =
+      runSpec (cont (afterHeader k g proto profile L)) { rest := R, stop := stop, taken := k.size } := by
+  have h13 := hdrTail_length k proto profile L
+  have hsz := k.size_cases
+  have hu : (u8 k.size).toNat = k.size := by cases k <;> rfl
+  rw [decodeHeader_run_ok (DecSt.init g) (afterHeader k g proto profile L) cont _ k.size hsz
+    (by simp only [List.length_cons, List.length_append, h13]; omega)
+    (by simp only [List.headD_cons]; exact hu.symm)
     (by
-      rw [hrest]
-      have e1 : (14 :: (hdrTail proto profile recs.length ++ (recs ++
-          [lo (checksum (frameHdr proto profile recs.length ++ recs)), hi (checksum (frameHdr proto profile recs.length ++ recs))] ++ tail))).take 1 = [14] := rfl
-      have e2 : ((14 :: (hdrTail proto profile recs.length ++ (recs ++
-          [lo (checksum (frameHdr proto profile recs.length ++ recs)), hi (checksum (frameHdr proto profile recs.length ++ recs))] ++ tail))).drop 1).take (14 - 1) =
-          hdrTail proto profile recs.length := by
+      have e1 : (u8 k.size :: (hdrTail k proto profile L ++ R)).take 1 = [u8 k.size] := rfl
+      have e2 : ((u8 k.size :: (hdrTail k proto profile L ++ R)).drop 1).take (k.size - 1) = hdrTail k proto profile L := by
         simp only [List.drop_succ_cons, List.drop_zero]
-        exact List.take_left' (by rw [h13])
+        exact List.take_left' h13
       simp only at e1 e2 ⊢
       rw [e1, e2]
-      exact headerCheck_frame g proto profile recs.length hp hp2)]
-  have hdrop : (frameBytes proto profile recs ++ tail).drop 14 = recs ++
-      [lo (checksum (frameHdr proto profile recs.length ++ recs)), hi (checksum (frameHdr proto profile recs.length ++ recs))] ++ tail := by
-    rw [hrest]
-    simp only [List.drop_succ_cons]
-    exact List.drop_left' (by rw [h13])
+      exact headerCheck_frame k g proto profile L hp hp2)]
+  have hdrop : (u8 k.size :: (hdrTail k proto profile L ++ R)).drop k.size = R := by
+    have e : (u8 k.size :: (hdrTail k proto profile L ++ R)).drop ((k.size - 1) + 1) = R := by
+      rw [List.drop_succ_cons]
+      exact List.drop_left' h13
+    have e' : k.size - 1 + 1 = k.size := by omega
+    rw [e'] at e
+    exact e
   simp only [hdrop, Nat.zero_add]
 
+/-- the header phase on a frame -/
+theorem frame_header_step (P : Profile) (m : Mode) (k : HdrKind) (g : Globals) (proto profile : Nat) (recs tail : Bytes) (stop : Stop)
+    (hp : proto < 256) (hp2 : proto / 16 ≤ protoMajorMax) (cont : DecSt → HP) :
+    runSpec (decodeHeader (DecSt.init g) cont)
+        { rest := frameBytesK k proto profile recs ++ tail, stop := stop, taken := 0 } =
+      runSpec (cont (afterHeader k g proto profile recs.length))
+        { rest := recs ++ [lo (checksum (frameHdr k proto profile recs.length ++ recs)),
+            hi (checksum (frameHdr k proto profile recs.length ++ recs))] ++ tail, stop := stop, taken := k.size } := by
+  have hrest : frameBytesK k proto profile recs ++ tail = u8 k.size :: (hdrTail k proto profile recs.length ++ (recs ++
+      [lo (checksum (frameHdr k proto profile recs.length ++ recs)), hi (checksum (frameHdr k proto profile recs.length ++ recs))] ++ tail)) := by
+    rw [frameBytes_split]; simp
+  rw [hrest]
+  exact frame_header_step' P m k g proto profile recs.length _ stop hp hp2 cont
+
 /-- **Whole-file framing.** Lay out any list of items — starting with a file_id definition and
-    its data record — as a FIT writer does (14-byte header with CRC, records, file CRC). If the item
+    its data record — as a FIT writer does (a header of any of the three kinds, records, file CRC). If the item
     machine accepts the items (`runItems … = .ok st'`), then `Decode`, on those bytes followed by
     anything, succeeds and returns exactly the item machine's state (its File, definitions,
     timestamp reference, counters), with the file CRC recorded. -/
-theorem decode_frame_ok (P : Profile) (o : Opts) (g : Globals) (proto profile : Nat)
+theorem decode_frame_ok (P : Profile) (o : Opts) (k : HdrKind) (g : Globals) (proto profile : Nat)
     (d0 : DefMsg) (b0 : Bool) (fs dev : List Bytes) (rest : List Item) (tail : Bytes) (stop : Stop) (st' : DecSt)
     (hp : proto < 256) (hp2 : proto / 16 ≤ protoMajorMax)
     (hwf0 : DefnWF d0 b0) (hg : d0.global = mnFileId) (hkn : P.known mnFileId = true)
     (hlen : (serialize (.defn d0 b0 :: .data d0.localT fs dev :: rest)).length < 4294967296)
     (hfit : ItemsFitD P (List.replicate 16 none) (.defn d0 b0 :: .data d0.localT fs dev :: rest))
-    (hrun : runItems P (afterHeader g proto profile (serialize (.defn d0 b0 :: .data d0.localT fs dev :: rest)).length).hdr g
-      (.defn d0 b0 :: .data d0.localT fs dev :: rest) = .ok st') :
+    (hrun : runItems P (afterHeader k g proto profile (serialize (.defn d0 b0 :: .data d0.localT fs dev :: rest)).length).hdr g
+      (.defn d0 b0 :: .data d0.localT fs dev :: rest)
+      (afterHeader k g proto profile (serialize (.defn d0 b0 :: .data d0.localT fs dev :: rest)).length).crc = .ok st') :
     (decodeSpec P o .full g
-      (frameBytes proto profile (serialize (.defn d0 b0 :: .data d0.localT fs dev :: rest)) ++ tail) stop).1 =
+      (frameBytesK k proto profile (serialize (.defn d0 b0 :: .data d0.localT fs dev :: rest)) ++ tail) stop).1 =
       finalize o (okOut { st' with
         crc := 0#16,
-        file := st'.file.map fun f => { f with crc := (checksum (frameHdr proto profile
+        file := st'.file.map fun f => { f with crc := (checksum (frameHdr k proto profile
           (serialize (.defn d0 b0 :: .data d0.localT fs dev :: rest)).length ++
           serialize (.defn d0 b0 :: .data d0.localT fs dev :: rest))).toNat } }) := by
   -- what the item machine did
   unfold runItems at hrun
   simp only at hrun
-  cases h1 : stepItem P (recState0 P g proto profile (serialize (.defn d0 b0 :: .data d0.localT fs dev :: rest)).length)
+  cases h1 : stepItem P (recState0 P k g proto profile (serialize (.defn d0 b0 :: .data d0.localT fs dev :: rest)).length)
       (.defn d0 b0) with
   | stop o1 =>
-    have : stepItem P { DecSt.init g with hdr := (afterHeader g proto profile (serialize (.defn d0 b0 :: .data d0.localT fs dev :: rest)).length).hdr, file := some { hdr := (afterHeader g proto profile (serialize (.defn d0 b0 :: .data d0.localT fs dev :: rest)).length).hdr, fileId := zeroFileId P }, unkInit := true } (.defn d0 b0) = .stop o1 := h1
+    have : stepItem P { DecSt.init g with hdr := (afterHeader k g proto profile (serialize (.defn d0 b0 :: .data d0.localT fs dev :: rest)).length).hdr, crc := (afterHeader k g proto profile (serialize (.defn d0 b0 :: .data d0.localT fs dev :: rest)).length).crc, file := some { hdr := (afterHeader k g proto profile (serialize (.defn d0 b0 :: .data d0.localT fs dev :: rest)).length).hdr, fileId := zeroFileId P }, unkInit := true } (.defn d0 b0) = .stop o1 := h1
     rw [this] at hrun; cases hrun
   | ok st1 =>
-    have e1 : stepItem P { DecSt.init g with hdr := (afterHeader g proto profile (serialize (.defn d0 b0 :: .data d0.localT fs dev :: rest)).length).hdr, file := some { hdr := (afterHeader g proto profile (serialize (.defn d0 b0 :: .data d0.localT fs dev :: rest)).length).hdr, fileId := zeroFileId P }, unkInit := true } (.defn d0 b0) = .ok st1 := h1
+    have e1 : stepItem P { DecSt.init g with hdr := (afterHeader k g proto profile (serialize (.defn d0 b0 :: .data d0.localT fs dev :: rest)).length).hdr, crc := (afterHeader k g proto profile (serialize (.defn d0 b0 :: .data d0.localT fs dev :: rest)).length).crc, file := some { hdr := (afterHeader k g proto profile (serialize (.defn d0 b0 :: .data d0.localT fs dev :: rest)).length).hdr, fileId := zeroFileId P }, unkInit := true } (.defn d0 b0) = .ok st1 := h1
     rw [e1] at hrun
     simp only at hrun
     cases h2 : stepItem P st1 (.data d0.localT fs dev) with
@@ -586,7 +611,7 @@ theorem decode_frame_ok (P : Profile) (o : Opts) (g : Globals) (proto profile : 
           simp only at hrun
           -- fitness of the items along the states actually reached
           obtain ⟨hokd0, hokdr, hfitrest⟩ := hfit
-          have hd1 := stepItem_defs P _ st1 _ (ItemOKD.toOK (recState0 P g proto profile _) _ hokd0) h1
+          have hd1 := stepItem_defs P _ st1 _ (ItemOKD.toOK (recState0 P k g proto profile _) _ hokd0) h1
           have hok2 : ItemOK st1 (.data d0.localT fs dev) := by
             apply ItemOKD.toOK
             rw [hd1]; exact hokdr
@@ -604,7 +629,7 @@ theorem decode_frame_ok (P : Profile) (o : Opts) (g : Globals) (proto profile : 
           have hLsum : L = (serializeItem (.defn d0 b0)).length + (serializeItem (.data d0.localT fs dev)).length +
               (serialize rest).length := by
             rw [← hL, hser]; simp only [List.length_append]; omega
-          have hn1 := stepItem_n P _ st1 _ (ItemOKD.toOK (recState0 P g proto profile L) _ hokd0) h1
+          have hn1 := stepItem_n P _ st1 _ (ItemOKD.toOK (recState0 P k g proto profile L) _ hokd0) h1
           have hn2 := stepItem_n P st1 st2 _ hok2 h2
           have hh1 := stepItem_hdr P _ st1 _ h1
           have hh2 := stepItem_hdr P st1 st2 _ h2
@@ -612,13 +637,13 @@ theorem decode_frame_ok (P : Profile) (o : Opts) (g : Globals) (proto profile : 
             rw [hh2, hh1]
             show L % 4294967296 = L
             exact Nat.mod_eq_of_lt hlen
-          have hn0 : (recState0 P g proto profile L).n = 0 := rfl
+          have hn0 : (recState0 P k g proto profile L).n = 0 := rfl
           -- the data phase
           have hD : ∀ (fe : Nat) (crc2 : Bytes),
-              runSpecD L (recordsProg P .full (recState0 P g proto profile L)) 0
+              runSpecD L (recordsProg P .full (recState0 P k g proto profile L)) 0
                 { rest := serialize (.defn d0 b0 :: .data d0.localT fs dev :: rest) ++ crc2 ++ tail, stop := stop,
-                  taken := 14, frameEnd := fe } =
-              (.inr st', L, { rest := crc2 ++ tail, stop := stop, taken := 14 + L, frameEnd := fe }) := by
+                  taken := k.size, frameEnd := fe } =
+              (.inr st', L, { rest := crc2 ++ tail, stop := stop, taken := k.size + L, frameEnd := fe }) := by
             intro fe crc2
             unfold recordsProg
             rw [run_parseFileIdMsg_ok P L _ d0 b0 hwf0 hg hkn fs dev _ st1 st2 0 _ (serialize rest ++ crc2 ++ tail)
@@ -632,7 +657,7 @@ theorem decode_frame_ok (P : Profile) (o : Opts) (g : Globals) (proto profile : 
             have key := run_items P L (fun st => DProg.done st) rest (L + 1 - rest.length) { st2 with file := some f' }
               (0 + (serializeItem (.defn d0 b0)).length + (serializeItem (.data d0.localT fs dev)).length)
               { rest := serialize rest ++ crc2 ++ tail, stop := stop,
-                taken := 14 + (serializeItem (.defn d0 b0)).length + (serializeItem (.data d0.localT fs dev)).length,
+                taken := k.size + (serializeItem (.defn d0 b0)).length + (serializeItem (.data d0.localT fs dev)).length,
                 frameEnd := fe } (crc2 ++ tail) hfit3 (by simp only [List.append_assoc]) (by omega)
               (by show st2.n = _; rw [hn2, hn1, hn0])
             rw [hrun] at key
@@ -651,28 +676,26 @@ theorem decode_frame_ok (P : Profile) (o : Opts) (g : Globals) (proto profile : 
             simp only [runSpecD]
             have e1 : 0 + (serializeItem (.defn d0 b0)).length + (serializeItem (.data d0.localT fs dev)).length +
                 (serialize rest).length = L := by omega
-            have e2 : 14 + (serializeItem (.defn d0 b0)).length + (serializeItem (.data d0.localT fs dev)).length +
-                (serialize rest).length = 14 + L := by omega
+            have e2 : k.size + (serializeItem (.defn d0 b0)).length + (serializeItem (.data d0.localT fs dev)).length +
+                (serialize rest).length = k.size + L := by omega
             rw [e1, e2]
           -- the checksum register at the end of the data phase
-          have hcrc : st'.crc = checksum (frameHdr proto profile L ++
+          have hcrc : st'.crc = checksum (frameHdr k proto profile L ++
               serialize (.defn d0 b0 :: .data d0.localT fs dev :: rest)) := by
-            have ht := Tracks.run L (recordsProg P .full (recState0 P g proto profile L)) _
-              (recordsProg_tracks P .full (recState0 P g proto profile L)) 0
+            have ht := Tracks.run L (recordsProg P .full (recState0 P k g proto profile L)) _
+              (recordsProg_tracks P .full (recState0 P k g proto profile L)) 0
               { rest := serialize (.defn d0 b0 :: .data d0.localT fs dev :: rest) ++ [] ++ tail, stop := stop,
-                taken := 14, frameEnd := 0 } st' (by rw [hD 0 []])
+                taken := k.size, frameEnd := 0 } st' (by rw [hD 0 []])
             rw [hD 0 []] at ht
             have h1' := ht.1
             simp only [DecSt.ctr, List.append_nil] at h1'
-            have e14 : 14 + L - 14 = L := by omega
+            have e14 : k.size + L - k.size = L := by omega
             rw [e14] at h1'
             have etake : (serialize (.defn d0 b0 :: .data d0.localT fs dev :: rest) ++ tail).take L =
                 serialize (.defn d0 b0 :: .data d0.localT fs dev :: rest) := List.take_left' hL
             rw [etake] at h1'
             rw [h1']
-            have hz : (recState0 P g proto profile L).crc = checksum (frameHdr proto profile L) := by
-              show (0#16 : BitVec 16) = _
-              exact (Props.C14.residue _).symm
+            have hz : (recState0 P k g proto profile L).crc = checksum (frameHdr k proto profile L) := rfl
             rw [hz]
             unfold checksum
             rw [← update_append]
@@ -681,23 +704,23 @@ theorem decode_frame_ok (P : Profile) (o : Opts) (g : Globals) (proto profile : 
           simp only
           congr 1
           unfold decodeProg
-          rw [frame_header_step P .full g proto profile _ tail stop hp hp2]
+          rw [frame_header_step P .full k g proto profile _ tail stop hp hp2]
           rw [hL]
           simp only [runSpec]
-          have hlim : (afterHeader g proto profile L).hdr.dataSize = L := Nat.mod_eq_of_lt hlen
+          have hlim : (afterHeader k g proto profile L).hdr.dataSize = L := Nat.mod_eq_of_lt hlen
           rw [hlim]
-          have hst0 : ({ afterHeader g proto profile L with
-              file := some { hdr := (afterHeader g proto profile L).hdr, fileId := zeroFileId P },
-              unkInit := true } : DecSt) = recState0 P g proto profile L := rfl
+          have hst0 : ({ afterHeader k g proto profile L with
+              file := some { hdr := (afterHeader k g proto profile L).hdr, fileId := zeroFileId P },
+              unkInit := true } : DecSt) = recState0 P k g proto profile L := rfl
           rw [hst0, hD]
           simp only [↓reduceIte]
           unfold checkCRC
           simp only [runSpecT]
-          have h2len : 2 ≤ ([lo (checksum (frameHdr proto profile L ++ serialize (.defn d0 b0 :: .data d0.localT fs dev :: rest))),
-              hi (checksum (frameHdr proto profile L ++ serialize (.defn d0 b0 :: .data d0.localT fs dev :: rest)))] ++ tail).length := by
+          have h2len : 2 ≤ ([lo (checksum (frameHdr k proto profile L ++ serialize (.defn d0 b0 :: .data d0.localT fs dev :: rest))),
+              hi (checksum (frameHdr k proto profile L ++ serialize (.defn d0 b0 :: .data d0.localT fs dev :: rest)))] ++ tail).length := by
             simp
           rw [if_pos h2len]
-          generalize checksum (frameHdr proto profile L ++ serialize (.defn d0 b0 :: .data d0.localT fs dev :: rest)) = fc at hcrc ⊢
+          generalize checksum (frameHdr k proto profile L ++ serialize (.defn d0 b0 :: .data d0.localT fs dev :: rest)) = fc at hcrc ⊢
           have hzero : update st'.crc [lo fc, hi fc] = 0#16 := by rw [hcrc]; exact update_lo_hi fc
           simp only [List.cons_append, List.nil_append, List.take_succ_cons, List.take_zero, hzero, ↓reduceIte,
             lo_hi_leNat]
